@@ -202,6 +202,11 @@ class GraphParser:
     _RE_SUICIDE = r'(?:!)?'
     _RE_NODE = _RE_SUICIDE + TaskID.NAME_RE
     _RE_NODE_OR_XTRIG = r'(?:[!@])?' + TaskID.NAME_RE
+    # A bare node name in an expression is not preceded by a name, qualifier
+    # or offset character, and not followed by a name character, offset or
+    # qualifier.
+    _RE_NODE_START = r'(?<![\w\-+%@:\[])'
+    _RE_NODE_END = r'(?![\w\-+%@\[:])'
     _RE_PARAMS = r'<[\w,=\-+]+>'
     _RE_OFFSET = r'\[[\w\-\+\^:]+\]'
     _RE_QUAL = QUALIFIER + r'[\w\-]+'  # task or fam trigger
@@ -660,24 +665,23 @@ class GraphParser:
                 if name.startswith(self.__class__.XTRIG):
                     n_info.append((name, offset, trig, opt))
                     continue
+                # NOTE: node names may contain and end with non-word
+                # characters ("foo-x", "foo+"), so "\b" cannot be used to
+                # find where a name starts and ends in the expression.
+                before = self.__class__._RE_NODE_START
                 if trig:
                     # Replace with standard trigger name if necessary
                     trig = trig.strip(self.__class__.QUALIFIER)
                     n_trig = TaskTrigger.standardise_name(trig)
                     if n_trig != trig:
-                        if offset:
-                            this = r'\b%s\b%s:%s(?!:)' % (
-                                re.escape(name),
-                                re.escape(offset),
-                                re.escape(trig)
-                            )
-                        else:
-                            this = r'\b%s:%s\b(?![\[:])' % (
-                                re.escape(name),
-                                re.escape(trig)
-                            )
+                        this = r'%s%s%s:%s(?![\w\-\[:])' % (
+                            before,
+                            re.escape(name),
+                            re.escape(offset),
+                            re.escape(trig)
+                        )
                         that = f"{name}{offset}:{n_trig}"
-                        expr = re.sub(this, that, expr)
+                        expr = re.sub(this, lambda _: that, expr)
                 else:
                     # Make success triggers explicit.
                     if name in self.family_map:
@@ -686,14 +690,19 @@ class GraphParser:
                         )
                     n_trig = TASK_OUTPUT_SUCCEEDED
                     if offset:
-                        this = r'\b%s\b%s(?!:)' % (
+                        this = r'%s%s%s(?!:)' % (
+                            before,
                             re.escape(name),
                             re.escape(offset)
                         )
                     else:
-                        this = r'\b%s\b(?![\[:])' % re.escape(name)
+                        this = r'%s%s%s' % (
+                            before,
+                            re.escape(name),
+                            self.__class__._RE_NODE_END
+                        )
                     that = f"{name}{offset}:{n_trig}"
-                    expr = re.sub(this, that, expr)
+                    expr = re.sub(this, lambda _: that, expr)
 
                 n_info.append((name, offset, n_trig, opt))
 
